@@ -195,7 +195,7 @@ def build_sources(rep, tier, seed, multiline):
     # token-level mutations of the example corpus
     n_mut = 3000 if quick else 40000
     corpus = []
-    for f in sorted(glob.glob("/repo/examples/*.tx3")):
+    for f in sorted(glob.glob(os.path.join(core.REPO, "examples", "*.tx3"))):
         corpus.append(open(f).read())
     for k in range(n_mut):
         src = rng.choice(corpus)
